@@ -1,17 +1,17 @@
 \* C42 leg A thorough (2): several intervals (grid 0..8, split intervals 4 and 6), steps {1,2,4},
-\* worlds 1..5, every history of at most 3 queries (+ cache losses)
+\* worlds 2,3,5, every history of at most 3 queries (+ cache losses)
 SPECIFICATION Spec
 CONSTANTS T = 8
           StepSet = {1, 2, 4}
           Common = {1, 2, 4}
           Ivs = {4, 6}
           MinExt = 100
-          WorldIds = {1, 2, 3, 4, 5}
+          WorldIds = {2, 3, 5}
           GridFix = TRUE
           Unaligned = FALSE
           MaxHist = 3
           HistLen = 2
-          CaseWorlds = {1, 2, 4, 5}
+          CaseWorlds = {2, 5}
 INVARIANTS RespIsDirect C42_ExtentsHoldDirectData C42_ExtentsOrdered
 PROPERTIES C42_ResponsesAreDirect
 VIEW View
